@@ -104,22 +104,24 @@ type Sim struct {
 	hash         uint64
 	events       []Event
 	fail         *Failure
-	probes       map[string]int
-	faults       map[string]int
+	probes       counters
+	faults       counters
 	stamp        int64
 	regSeq       int
-	reg          map[uintptr]int
+	reg          u64Table
 	regKeep      []any
-	anoms        map[string]int
+	anoms        counters
 	pctAt        []int
 	logs         []string
 	aborted      string // "budget", "deadlock", ""
 	switches     int
-	switchPairs  map[string]int
+	switchPairs  u64Table
+	sites        interner
 	lastRun      *Task
 	fairMode     bool
 	maxTasksLive int
 	data         any
+	optBuf       []*Task
 	stepHooks    []func()
 	inHook       int
 	timerLog     []TimerReq
@@ -163,15 +165,10 @@ func Run(cfg Config, prog, sched *Stream, main func()) *Result {
 		cfg.FairAfter = 20000
 	}
 	s := &Sim{
-		cfg:         cfg,
-		Prog:        prog,
-		Sched:       sched,
-		probes:      map[string]int{},
-		faults:      map[string]int{},
-		anoms:       map[string]int{},
-		reg:         map[uintptr]int{},
-		switchPairs: map[string]int{},
-		hash:        1469598103934665603,
+		cfg:   cfg,
+		Prog:  prog,
+		Sched: sched,
+		hash:  1469598103934665603,
 	}
 	if cfg.Strategy == 2 {
 		n := cfg.PCTLen
@@ -179,7 +176,7 @@ func Run(cfg Config, prog, sched *Stream, main func()) *Result {
 			n = 1000
 		}
 		for i := 0; i < cfg.PCTDepth; i++ {
-			s.pctAt = append(s.pctAt, sched.aux(n))
+			s.pctAt = push(s.pctAt, sched.aux(n))
 		}
 		sort.Ints(s.pctAt)
 	}
@@ -188,9 +185,9 @@ func Run(cfg Config, prog, sched *Stream, main func()) *Result {
 	s.spawn("main", false, main)
 	s.loop()
 	res := &Result{
-		Fail: s.fail, Steps: s.steps, Hash: s.hash, SimTime: s.clock.now, Probes: s.probes, Faults: s.faults,
-		Anomalies: s.anoms, Events: s.events, Logs: s.logs, Aborted: s.aborted, Tasks: len(s.tasks),
-		Switches: s.switches, SwitchPairs: s.switchPairs, ProgLen: len(prog.Vals), SchedLen: len(sched.Vals),
+		Fail: s.fail, Steps: s.steps, Hash: s.hash, SimTime: s.clock.now, Probes: s.probes.toMap(), Faults: s.faults.toMap(),
+		Anomalies: s.anoms.toMap(), Events: s.events, Logs: s.logs, Aborted: s.aborted, Tasks: len(s.tasks),
+		Switches: s.switches, SwitchPairs: s.pairMap(), ProgLen: len(prog.Vals), SchedLen: len(sched.Vals),
 		TimersFired: s.clock.fired, Data: s.data, TimerLog: s.timerLog,
 	}
 	for _, t := range s.tasks {
@@ -199,6 +196,27 @@ func Run(cfg Config, prog, sched *Stream, main func()) *Result {
 		}
 	}
 	return res
+}
+
+// lock/unlock guard the few fields touched by tasks that are not the baton holder (a task woken out
+// of a real channel operation, a task finishing). The race detector must not see them as
+// synchronisation of the program under test.
+func (s *Sim) lock() {
+	raceDisable()
+	s.mu.Lock()
+}
+
+func (s *Sim) unlock() {
+	s.mu.Unlock()
+	raceEnable()
+}
+
+func (s *Sim) pairMap() map[string]int {
+	m := map[string]int{}
+	s.switchPairs.each(func(k uint64, v int) {
+		m[s.sites.names[k>>32]+" -> "+s.sites.names[k&0xffffffff]] = v
+	})
+	return m
 }
 
 func (s *Sim) mix(x uint64) {
@@ -223,7 +241,7 @@ func (s *Sim) event(t *Task, kind, site string) {
 	s.mixs(kind)
 	s.mixs(site)
 	if len(s.events) < s.cfg.KeepEvents {
-		s.events = append(s.events, Event{s.steps, id, kind, site})
+		s.events = push(s.events, Event{s.steps, id, kind, site})
 	}
 }
 
@@ -237,7 +255,7 @@ func (s *Sim) spawn(name string, lib bool, fn func()) *Task {
 	if s.cfg.Strategy == 2 {
 		t.prio = 1000 + s.Sched.aux(1000)
 	}
-	s.tasks = append(s.tasks, t)
+	s.tasks = push(s.tasks, t)
 	s.event(t, "spawn", name)
 	go s.taskMain(t, fn)
 	return t
@@ -259,10 +277,10 @@ func (s *Sim) taskMain(t *Task, fn func()) {
 				}
 			}
 		}
-		s.mu.Lock()
+		s.lock()
 		t.state = Done
 		t.on = "done"
-		s.mu.Unlock()
+		s.unlock()
 	}()
 	fn()
 }
@@ -302,13 +320,15 @@ func trimStack(st string) string {
 	return strings.Join(out, "\n")
 }
 
-// loop is the scheduler. It runs on the bubble's root goroutine.
+// loop is the scheduler. It runs on the bubble's root goroutine. After synctest.Wait returns every
+// other goroutine of the bubble is durably blocked, so the scheduler works on the simulation state
+// without locking (and outside RaceDisable regions, so that goroutines it starts from timer events
+// carry an ordinary creation edge).
 func (s *Sim) loop() {
 	for {
 		raceDisable()
 		synctest.Wait()
 		raceEnable()
-		s.mu.Lock()
 		if c := s.cur; c != nil && c.state == Running {
 			// released, durably blocked, and not parked on its gate: blocked in a real channel operation
 			c.state = RealBlocked
@@ -316,12 +336,10 @@ func (s *Sim) loop() {
 		s.cur = nil
 		s.dirty = false
 		if s.fail != nil {
-			s.mu.Unlock()
 			return
 		}
 		if s.steps >= s.cfg.MaxSteps {
 			s.aborted = "budget"
-			s.mu.Unlock()
 			return
 		}
 		var next *Task
@@ -335,7 +353,6 @@ func (s *Sim) loop() {
 		if fire {
 			s.steps++
 			s.clock.fireNext(s)
-			s.mu.Unlock()
 			continue
 		}
 		if next == nil {
@@ -348,11 +365,9 @@ func (s *Sim) loop() {
 			if alive {
 				s.aborted = "deadlock"
 			}
-			s.mu.Unlock()
 			return
 		}
 		s.dispatch(next)
-		s.mu.Unlock()
 		raceDisable()
 		next.gate <- struct{}{}
 		raceEnable()
@@ -363,8 +378,8 @@ func (s *Sim) dispatch(next *Task) {
 	s.steps++
 	if s.lastRun != nil && s.lastRun != next {
 		s.switches++
-		if len(s.switchPairs) < 4096 {
-			s.switchPairs[s.lastRun.site+" -> "+next.site]++
+		if s.switchPairs.n < 4096 {
+			*s.switchPairs.ref(uint64(s.sites.id(s.lastRun.site))<<32 | uint64(s.sites.id(next.site)))++
 		}
 	}
 	s.lastRun = next
@@ -393,7 +408,7 @@ func (s *Sim) runHooks() {
 // non-blocking channel polls and plain memory; it must not block.
 func OnStep(fn func()) {
 	if s := S; s != nil {
-		s.stepHooks = append(s.stepHooks, fn)
+		s.stepHooks = push(s.stepHooks, fn)
 	}
 }
 
@@ -431,18 +446,19 @@ func (s *Sim) isEnabled(t *Task) bool {
 // Choice encoding: option 0 is "stay on self if possible, else the lowest task id"; then the other
 // enabled tasks by id; the last option is "fire the earliest timer" when one is pending.
 func (s *Sim) decide(self *Task) (*Task, bool) {
-	var opts []*Task
+	opts := s.optBuf[:0]
 	if self != nil && !self.spin {
-		opts = append(opts, self)
+		opts = push(opts, self)
 	}
 	for _, t := range s.tasks {
 		if t != self && s.isEnabled(t) {
-			opts = append(opts, t)
+			opts = push(opts, t)
 		}
 	}
 	if self != nil && self.spin && len(opts) == 0 {
-		opts = append(opts, self)
+		opts = push(opts, self)
 	}
+	s.optBuf = opts
 	timer := s.clock.pending()
 	if len(opts) == 0 {
 		// nothing can run at this instant: stalled tasks first, then quiescence waiters whose limit
@@ -577,10 +593,10 @@ func (s *Sim) yield(site string, ch bool) *Task {
 		}
 		s.forced, s.forcedT = next, fire
 	}
-	s.mu.Lock()
+	s.lock()
 	t.state = Ready
 	t.on = site
-	s.mu.Unlock()
+	s.unlock()
 	s.park(t)
 	if ch {
 		s.dirty = true
@@ -596,12 +612,12 @@ func Resume(t *Task) {
 	if s == nil || t == nil {
 		return
 	}
-	s.mu.Lock()
+	s.lock()
 	blocked := t.state == RealBlocked
 	if blocked {
 		t.state = Ready
 	}
-	s.mu.Unlock()
+	s.unlock()
 	if blocked {
 		s.park(t)
 	}
@@ -611,11 +627,11 @@ func Resume(t *Task) {
 func Block(on string, enabled func() bool) {
 	s := S
 	t := s.cur
-	s.mu.Lock()
+	s.lock()
 	t.state = SimBlocked
 	t.enabled = enabled
 	t.on = on
-	s.mu.Unlock()
+	s.unlock()
 	s.park(t)
 }
 
@@ -652,7 +668,7 @@ func Go(site string, lib bool, fn func()) {
 func Quiesce(limit time.Duration) {
 	s := S
 	t := s.cur
-	s.mu.Lock()
+	s.lock()
 	t.state = SimBlocked
 	t.quiesce = true
 	if limit < 0 {
@@ -661,7 +677,7 @@ func Quiesce(limit time.Duration) {
 		t.qlimit = s.clock.now + limit
 	}
 	t.on = "quiesce"
-	s.mu.Unlock()
+	s.unlock()
 	s.park(t)
 }
 
@@ -673,12 +689,12 @@ func Stall(n int) {
 		return
 	}
 	t := s.cur
-	s.faults["stall"]++
-	s.mu.Lock()
+	s.faults.add("stall", 1)
+	s.lock()
 	t.state = Ready
 	t.stallTo = s.steps + n
 	t.on = "stall"
-	s.mu.Unlock()
+	s.unlock()
 	s.park(t)
 }
 
@@ -687,7 +703,7 @@ func Tasks() []TaskInfo {
 	s := S
 	var out []TaskInfo
 	for _, t := range s.tasks {
-		out = append(out, TaskInfo{t.ID, t.Name, t.Lib, t.state, t.on})
+		out = push(out, TaskInfo{t.ID, t.Name, t.Lib, t.state, t.on})
 	}
 	return out
 }
@@ -722,25 +738,25 @@ func Failed() bool { return S.fail != nil }
 
 func Probe(name string) {
 	if s := S; s != nil {
-		s.probes[name]++
+		s.probes.add(name, 1)
 	}
 }
 
 func Fault(name string) {
 	if s := S; s != nil {
-		s.faults[name]++
+		s.faults.add(name, 1)
 	}
 }
 
 func Anomaly(name string) {
 	if s := S; s != nil {
-		s.anoms[name]++
+		s.anoms.add(name, 1)
 	}
 }
 
 func Logf(format string, args ...any) {
 	if s := S; s != nil && len(s.logs) < 400 {
-		s.logs = append(s.logs, fmt.Sprintf("[%d t%d] ", s.steps, CurrentID())+fmt.Sprintf(format, args...))
+		s.logs = push(s.logs, fmt.Sprintf("[%d t%d] ", s.steps, CurrentID())+fmt.Sprintf(format, args...))
 	}
 }
 
@@ -777,7 +793,10 @@ func SchedDraw(n int) int {
 }
 
 // siteCache is only touched under the baton.
-var siteCache = map[uintptr]string{}
+var (
+	siteCache u64Table
+	siteNames []string
+)
 
 // Site returns a stable description of the caller's caller (used by shims that have no site string).
 func Site(skip int) string {
@@ -788,8 +807,8 @@ func Site(skip int) string {
 	}
 	pc := pcs[0]
 	if s != nil {
-		if v, ok := siteCache[pc]; ok {
-			return v
+		if i, ok := siteCache.get(uint64(pc)); ok {
+			return siteNames[i]
 		}
 	}
 	fr, _ := runtime.CallersFrames(pcs[:]).Next()
@@ -799,7 +818,8 @@ func Site(skip int) string {
 	}
 	v := fmt.Sprintf("%s:%d", fn, fr.Line)
 	if s != nil {
-		siteCache[pc] = v
+		siteNames = push(siteNames, v)
+		siteCache.put(uint64(pc), len(siteNames)-1)
 	}
 	return v
 }
